@@ -41,7 +41,51 @@ var basic = map[string]reflect.Type{
 	"float32": reflect.TypeOf(float32(0)), "float64": reflect.TypeOf(float64(0)), "string": reflect.TypeOf(""),
 	"bytes": reflect.TypeOf([]byte(nil)), "any": reflect.TypeOf((*any)(nil)).Elem(),
 }
-var basicNames = []string{"bool", "int", "int8", "int16", "int64", "uint", "uint8", "uint16", "uint64", "float32", "float64", "string", "string", "bytes", "any", "any"}
+
+// Named types with the hook methods both codecs look for. reflect.StructOf
+// cannot attach methods, so these are ordinary types used as field, element
+// and map-key types.
+
+// textM implements encoding.TextMarshaler (value receiver) and TextUnmarshaler.
+type textM struct{ V string }
+
+func (x textM) MarshalText() ([]byte, error) {
+	if strings.HasPrefix(x.V, "!") {
+		return nil, fmt.Errorf("textM refuses %q", x.V)
+	}
+	return []byte("T:" + x.V), nil
+}
+func (x *textM) UnmarshalText(b []byte) error {
+	if strings.HasPrefix(string(b), "!") {
+		return fmt.Errorf("textM refuses %q", b)
+	}
+	x.V = strings.TrimPrefix(string(b), "T:")
+	return nil
+}
+
+// jsonM implements Marshaler / Unmarshaler: it keeps the raw text it was given.
+type jsonM struct{ Raw string }
+
+func (x jsonM) MarshalJSON() ([]byte, error) {
+	if x.Raw == "" {
+		return []byte("null"), nil
+	}
+	return []byte(x.Raw), nil // not compacted, possibly with <, >, &: the encoder must do that
+}
+func (x *jsonM) UnmarshalJSON(b []byte) error {
+	if bytes.HasPrefix(b, []byte(`"!`)) {
+		return fmt.Errorf("jsonM refuses %s", b)
+	}
+	x.Raw = string(b)
+	return nil
+}
+
+func init() {
+	basic["textm"] = reflect.TypeOf(textM{})
+	basic["jsonm"] = reflect.TypeOf(jsonM{})
+}
+
+var basicNames = []string{"textm", "jsonm", "bool", "int", "int8", "int16", "int64", "uint", "uint8", "uint16", "uint64", "float32", "float64", "string", "string", "bytes", "any", "any"}
 
 func (d TypeDesc) build() (rt reflect.Type, err error) {
 	defer func() {
@@ -73,7 +117,7 @@ func (d TypeDesc) build() (rt reflect.Type, err error) {
 			return reflect.PointerTo(et), nil
 		default:
 			kt, ok := basic[d.Key]
-			if !ok || (d.Key != "string" && d.Key != "int" && d.Key != "uint8") {
+			if !ok || (d.Key != "string" && d.Key != "int" && d.Key != "uint8" && d.Key != "textm") {
 				return nil, fmt.Errorf("map key kind")
 			}
 			return reflect.MapOf(kt, et), nil
@@ -106,7 +150,7 @@ func genType(t *rapid.T, depth int, label string) TypeDesc {
 		return TypeDesc{Kind: "slice", Elem: &e}
 	case 7:
 		e := genType(t, depth-1, label+"m")
-		return TypeDesc{Kind: "map", Key: rapid.SampledFrom([]string{"string", "string", "int", "uint8"}).Draw(t, label+"mk"), Elem: &e}
+		return TypeDesc{Kind: "map", Key: rapid.SampledFrom([]string{"string", "string", "int", "uint8", "textm"}).Draw(t, label+"mk"), Elem: &e}
 	case 8:
 		e := genType(t, depth-1, label+"p")
 		return TypeDesc{Kind: "ptr", Elem: &e}
@@ -224,6 +268,13 @@ func genInput(t *rapid.T, d TypeDesc, depth int, l string) *ref.V {
 		return ref.Str(base64.StdEncoding.EncodeToString(raw))
 	case "any":
 		return richCfg.Value(2).Draw(t, l+"any")
+	case "textm":
+		return ref.Str(rapid.SampledFrom([]string{"T:a", "plain", "", "!no", "T:<&>", "T:\u00e9", "x\ry"}).Draw(t, l+"tm"))
+	case "jsonm":
+		if gen.OneIn(t, 8, l+"jmbad") {
+			return ref.Str("!refused")
+		}
+		return richCfg.Value(2).Draw(t, l+"jm")
 	case "slice", "array":
 		n := gen.Uniform(t, 0, 3, l+"len")
 		a := ref.Arr()
@@ -243,6 +294,8 @@ func genInput(t *rapid.T, d TypeDesc, depth int, l string) *ref.V {
 				k = rapid.SampledFrom([]string{"0", "1", "-5", "x", "1.5", "9223372036854775808", " 1", "+1", "01"}).Draw(t, l+"ik")
 			case "uint8":
 				k = rapid.SampledFrom([]string{"0", "255", "256", "-1", "7", "a"}).Draw(t, l+"uk")
+			case "textm":
+				k = rapid.SampledFrom([]string{"T:a", "T:b", "b", "!no", "", "T:<k>"}).Draw(t, l+"tk")
 			default:
 				k = rapid.SampledFrom(richCfg.Keys).Draw(t, l+"sk")
 			}
@@ -529,7 +582,7 @@ func checkType(c TypeCase) ev.Verdict {
 
 var typeUnit = ev.Unit[TypeCase]{
 	Name: "types-vs-stdlib",
-	Rule: "run-time generated Go types (reflect.StructOf: fields of every basic kind, []byte, any, slices, arrays, maps with string/int/uint8 keys, pointers, nested and embedded structs; tags with names differing only in case, names needing escaping, omitempty, string, '-', odd options) x type-directed JSON inputs (so that most decode) with injected mismatches (wrong JSON type, overflow, bad base64, bad ,string payloads, null, unknown / case-folded / Kelvin-sign / long-s / duplicate keys); oracle: differential with encoding/json of the default toolchain (Decoder.UseNumber): same dynamic error type, DeepEqual decoded values after mapping the two Number types, identical bytes from Marshal / MarshalEscaped(true,false) vs Encoder.SetEscapeHTML / MarshalIndent after normalising \\b \\f; non-trivial = type with >=1 tagged struct field and input that decodes without error",
+	Rule: "run-time generated Go types (reflect.StructOf: fields of every basic kind, []byte, any, slices, arrays, maps with string/int/uint8/TextMarshaler keys, named types implementing TextMarshaler/TextUnmarshaler and Marshaler/Unmarshaler (some values refused), pointers, nested and embedded structs; tags with names differing only in case, names needing escaping, omitempty, string, '-', odd options) x type-directed JSON inputs (so that most decode) with injected mismatches (wrong JSON type, overflow, bad base64, bad ,string payloads, null, unknown / case-folded / Kelvin-sign / long-s / duplicate keys); oracle: differential with encoding/json of the default toolchain (Decoder.UseNumber): same dynamic error type, DeepEqual decoded values after mapping the two Number types, identical bytes from Marshal / MarshalEscaped(true,false) vs Encoder.SetEscapeHTML / MarshalIndent after normalising \\b \\f; non-trivial = type with >=1 tagged struct field and input that decodes without error",
 	Draw: drawType, Check: checkType,
 }
 
